@@ -31,8 +31,8 @@ fn nonassertion(rng: &mut Rng, case: u64) -> Envelope {
     }
 }
 
-pub const OPS: [&str; 38] = [
-    "decode_mutant", "uncompress_forged", "adopt_foreign_encrypted",
+pub const OPS: [&str; 39] = [
+    "replace_subject_by_own_placeholder", "decode_mutant", "uncompress_forged", "adopt_foreign_encrypted",
     "attachments_container_reapply", "attachments_container_extend", "add_nonassertion_envelope", "add_nonassertion_salted", "add_nonassertion_optional", "add_nonassertion_batch", "replace_with_nonassertion", "add_nonassertion_if", "add", "add_duplicate", "add_salted", "add_envelope_obscured", "remove_existing", "remove_absent", "remove_all", "replace_assertion", "replace_subject_leaf",
     "replace_subject_node", "replace_subject_obscured", "wrap", "unwrap", "elide_some", "elide_revealing", "compress", "compress_subject", "uncompress", "uncompress_subject",
     "encrypt_subject", "decrypt_subject", "add_salt", "add_signature", "add_recipient", "add_type", "add_attachment", "encode_decode",
@@ -155,6 +155,12 @@ pub fn run(ctx: &mut Ctx) {
                         };
                         Some(cur.replace_subject(s))
                     }
+                    // the new subject is digest-equal to the WHOLE receiver (its own elided / compressed / encrypted form)
+                    "replace_subject_by_own_placeholder" => Some(cur.replace_subject(match rng.below(3) {
+                        0 => cur.elide(),
+                        1 => cur.compress().unwrap_or_else(|_| cur.elide()),
+                        _ => cur.wrap_envelope().encrypt_subject(&key).map(|x| x).unwrap_or_else(|_| cur.elide()),
+                    })),
                     "wrap" => Some(cur.wrap_envelope()),
                     "unwrap" => cur.unwrap_envelope().ok(),
                     "elide_some" | "elide_revealing" => {
